@@ -1,3 +1,498 @@
-(* Alloc — see docs/ for the plan of this file. *)
+(* C16 — the buffer-capacity view of M1.
+
+   A pooled context (tree.go allocateContext) owns three slices whose backing
+   arrays persist while the context sits in the pool:
+       params    cap maxParams      tsrParams  cap maxParams      skipNds  cap depth
+   Every write into them is an append / copyWithResize; the Go runtime allocates
+   exactly when the length to be reached exceeds the current capacity (a growth
+   event), after which the capacity is at least that length and stays.
+
+   M1 (Lookup.v) carries the three slices as lists (ps, tps, sks).  lbpI / lbdI /
+   roots_lookupI below are lbp / lbd / roots_lookup with one extra accumulator:
+   the high-water marks of the three lengths, taken at the entry of every step
+   and on every returned result, over the main context and all sub-contexts
+   (sub-contexts come from the same pool, so any pooled context can play any
+   role; the marks are the maximum over the roles).  tsrParams is stale between
+   requests and is only ever written together with tsr := true, so its length
+   counts only while tsr is set in a non-lazy run.
+   A run on contexts with capacities c has no growth event iff marks <= c.
+
+   No proofs in this file (Alloc2.v): the case files evaluate these functions. *)
 From FoxBase Require Import Bytes.
-From FoxRoute Require Import Node Lookup Spec Tree.
+From FoxRoute Require Import Node Lookup Tree.
+Open Scope char_scope.
+
+Record hw := { h_ps : nat; h_tps : nat; h_sks : nat }.
+Definition hw0 : hw := {| h_ps := 0; h_tps := 0; h_sks := 0 |}.
+
+Definition hw_le (a b : hw) : Prop := h_ps a <= h_ps b /\ h_tps a <= h_tps b /\ h_sks a <= h_sks b.
+Definition hw_leb (a b : hw) : bool :=
+  Nat.leb (h_ps a) (h_ps b) && Nat.leb (h_tps a) (h_tps b) && Nat.leb (h_sks a) (h_sks b).
+Definition hw_max (a b : hw) : hw :=
+  {| h_ps := Nat.max (h_ps a) (h_ps b); h_tps := Nat.max (h_tps a) (h_tps b); h_sks := Nat.max (h_sks a) (h_sks b) |}.
+
+(* marks at the entry of a step *)
+Definition bump (lazy : bool) (h : hw) (s : st) : hw :=
+  {| h_ps := Nat.max (h_ps h) (List.length (ps s));
+     h_tps := if tsr s && negb lazy then Nat.max (h_tps h) (List.length (tps s)) else h_tps h;
+     h_sks := Nat.max (h_sks h) (List.length (sks s)) |}.
+(* marks for a params list returned without passing through a state *)
+Definition hp (h : hw) (p : list kv) : hw :=
+  {| h_ps := Nat.max (h_ps h) (List.length p); h_tps := h_tps h; h_sks := h_sks h |}.
+
+Fixpoint lbpI (fuel : nat) (path : bytes) (lazy : bool) (ph : phase) (s : st) (h : hw) {struct fuel} : lres * hw :=
+  match fuel with O => (LOutOfFuel, h) | S f =>
+  let h := bump lazy h s in
+  let n := List.length path in
+  let key := nkey (cur s) in
+  match ph with
+  | PWalk =>
+      if Nat.ltb (cm s) n
+      then lbpI f path lazy (PInner 0)
+             {| cur := cur s; par := par s; cm := cm s; cmn := 0; pcnt := pcnt s; pkc := pkc s; sks := sks s;
+                ps := ps s; tsr := tsr s; tn := tn s; tps := tps s |} h
+      else lbpI f path lazy PAfter s h
+  | PInner i =>
+      if negb (Nat.ltb (cm s) n) then lbpI f path lazy PSelect s h
+      else if negb (Nat.ltb i (List.length key)) then lbpI f path lazy PSelect s h
+      else
+      match nth_error key i, nth_error path (cm s) with
+      | Some k, Some p =>
+        if negb (Ascii.eqb k p) || Ascii.eqb p "{" || Ascii.eqb p "*" then
+          if Ascii.eqb k "{" then
+            match index_byte (skipn (cm s) path) "/" with
+            | Some O => lbpI f path lazy PAfter s h
+            | idx =>
+              let cm' := match idx with Some d => cm s + d | None => n end in
+              match nth_error (nparams (cur s)) (pkc s) with
+              | None => (LPanic, h)
+              | Some prm =>
+                let rest := List.length key - cmn s in
+                let adv := match pend prm with
+                           | Some e => if Nat.leb (cmn s) e then e - cmn s else rest
+                           | None => rest end in
+                lbpI f path lazy (PInner (i + adv))
+                  {| cur := cur s; par := par s; cm := cm'; cmn := cmn s + adv;
+                     pcnt := if lazy then pcnt s else S (pcnt s); pkc := S (pkc s); sks := sks s;
+                     ps := if lazy then ps s else ps s ++ [(pkey prm, slice path (cm s) cm')];
+                     tsr := tsr s; tn := tn s; tps := tps s |} h
+              end
+            end
+          else if Ascii.eqb k "*" then
+            match nth_error (nparams (cur s)) (pkc s) with
+            | None => (LPanic, h)
+            | Some prm =>
+              let rest := List.length key - cmn s in
+              let go (ino : node) (d : nat) :=
+                lbpI f path lazy (PCatch ino (cm s))
+                  {| cur := cur s; par := par s; cm := cm s; cmn := cmn s + d; pcnt := pcnt s; pkc := pkc s;
+                     sks := sks s; ps := ps s; tsr := tsr s; tn := tn s; tps := tps s |} h in
+              match (match pend prm with Some e => if Nat.leb (cmn s) e then Some (e - cmn s) else None | None => None end) with
+              | Some d => match inode (cur s) with Some ino => go ino d | None => (LPanic, h) end
+              | None =>
+                match nchildren (cur s) with
+                | c0 :: _ => go c0 rest
+                | [] => let p' := if lazy then ps s else ps s ++ [(pkey prm, skipn (cm s) path)] in
+                        (Found (Some (cur s)) false p' (tps s), hp h p')
+                end
+              end
+            end
+          else lbpI f path lazy PAfter s h
+        else
+          lbpI f path lazy (PInner (S i))
+            {| cur := cur s; par := par s; cm := S (cm s); cmn := S (cmn s); pcnt := pcnt s; pkc := pkc s;
+               sks := sks s; ps := ps s; tsr := tsr s; tn := tn s; tps := tps s |} h
+      | _, _ => (LPanic, h)
+      end
+  | PCatch ino start =>
+      match nth_error (nparams (cur s)) (pkc s) with
+      | None => (LPanic, h)
+      | Some prm =>
+        match index_byte (skipn (cm s) path) "/" with
+        | Some (S d) =>
+          let cm' := cm s + S d in
+          let next (s1 : st) (h1 : hw) :=
+            lbpI f path lazy (PCatch ino start)
+              {| cur := cur s1; par := par s1; cm := S cm'; cmn := cmn s1; pcnt := pcnt s1; pkc := pkc s1;
+                 sks := sks s1; ps := ps s1; tsr := tsr s1; tn := tn s1; tps := tps s1 |} h1 in
+          match lbpI f (skipn cm' path) false PWalk (init_st ino [] []) h with
+          | (Found None _ _ _, h1) => next s h1
+          | (Found (Some sn) true _ stps, h1) =>
+              next (if tsr s then s
+                    else set_tsr lazy s sn (ps s ++ [(pkey prm, slice path start cm')] ++ stps)) h1
+          | (Found (Some sn) false sps _, h1) =>
+              let p' := if lazy then ps s else ps s ++ [(pkey prm, slice path start cm')] ++ sps in
+              (Found (Some sn) false p' (tps s), hp h1 p')
+          | (LPanic, h1) => (LPanic, h1)
+          | (LOutOfFuel, h1) => (LOutOfFuel, h1)
+          end
+        | _ =>
+          let ps' := if lazy then ps s else ps s ++ [(pkey prm, skipn start path)] in
+          match pend prm with
+          | None => (Found (Some (cur s)) false ps' (tps s), hp h ps')
+          | Some _ =>
+            match nth_error path start with
+            | None => (LPanic, h)
+            | Some c0 =>
+            if Ascii.eqb c0 "/" then lbpI f path lazy PAfter s h
+            else
+            lbpI f path lazy PAfter
+              {| cur := cur s; par := par s; cm := n; cmn := cmn s; pcnt := pcnt s; pkc := pkc s; sks := sks s;
+                 ps := ps'; tsr := tsr s; tn := tn s; tps := tps s |} h
+            end
+          end
+        end
+      end
+  | PSelect =>
+      if Nat.ltb (cm s) n then
+        match nth_error path (cm s) with
+        | None => (LPanic, h)
+        | Some p =>
+          match find_child (cur s) p with
+          | None =>
+            let s := if negb (tsr s) && is_leaf (cur s) && Nat.eqb (cmn s) (List.length key)
+                        && Nat.eqb (n - cm s) 1 && Ascii.eqb p "/"
+                     then set_tsr lazy s (cur s) (ps s) else s in
+            match param_child_index (cur s) with
+            | Some pi =>
+              let s1 := match wildcard_child_index (cur s) with Some wi => push s wi | None => s end in
+              match nth_error (nchildren (cur s)) pi with
+              | Some c => lbpI f path lazy PWalk (descend s1 c) h
+              | None => (LPanic, h) end
+            | None =>
+              match wildcard_child_index (cur s) with
+              | Some wi =>
+                match nth_error (nchildren (cur s)) wi with
+                | Some c => lbpI f path lazy PWalk (descend s c) h
+                | None => (LPanic, h) end
+              | None => lbpI f path lazy PAfter s h
+              end
+            end
+          | Some idx =>
+            let s1 := match wildcard_child_index (cur s) with Some wi => push s wi | None => s end in
+            let s2 := match param_child_index (cur s) with Some pi => push s1 pi | None => s1 end in
+            match nth_error (nchildren (cur s)) idx with
+            | Some c => lbpI f path lazy PWalk (descend s2 c) h
+            | None => (LPanic, h) end
+          end
+        end
+      else lbpI f path lazy PWalk s h
+  | PAfter =>
+      let s := {| cur := cur s; par := par s; cm := cm s; cmn := cmn s; pcnt := 0; pkc := 0; sks := sks s;
+                  ps := ps s; tsr := tsr s; tn := tn s; tps := tps s |} in
+      if negb (is_leaf (cur s)) then
+        let s1 :=
+          if negb (tsr s) && has_suffix_slash path && par_is_leaf s && Nat.eqb (cm s) n
+             && Nat.eqb (cmn s) 1 && starts_with "/" key
+          then match par s with Some p => set_tsr lazy s p (ps s) | None => s end
+          else if negb (tsr s) && Nat.eqb (cm s) n && Nat.eqb (cmn s) (List.length key) && negb (has_suffix_slash path)
+          then match find_child (cur s) "/" with
+               | Some idx =>
+                 match nth_error (nchildren (cur s)) idx with
+                 | Some c => if is_leaf c && Nat.eqb (List.length (nkey c)) 1 then set_tsr lazy s c (ps s) else s
+                 | None => s
+                 end
+               | None => s
+               end
+          else s in
+        lbpI f path lazy PBack s1 h
+      else if Nat.eqb (cm s) n && Nat.eqb (cmn s) (List.length key) then
+        (Found (Some (cur s)) false (ps s) (tps s), h)
+      else if Nat.eqb (cm s) n && Nat.ltb (cmn s) (List.length key) then
+        let s1 :=
+          if tsr s then s
+          else if has_suffix_slash path then
+            if par_is_leaf s && bytes_eqb (firstn (cmn s) key) ["/"]
+            then match par s with Some p => set_tsr lazy s p (ps s) | None => s end
+            else s
+          else
+            if bytes_eqb (skipn (cmn s) key) ["/"] then set_tsr lazy s (cur s) (ps s) else s in
+        lbpI f path lazy PBack s1 h
+      else if Nat.ltb (cm s) n && Nat.eqb (cmn s) (List.length key) then
+        let s1 :=
+          if negb (tsr s) && bytes_eqb (skipn (cm s) path) ["/"] then set_tsr lazy s (cur s) (ps s) else s in
+        lbpI f path lazy PBack s1 h
+      else lbpI f path lazy PBack s h
+  | PBack =>
+      match sks s with
+      | sk :: rest =>
+        match nth_error (nchildren (sk_n sk)) (sk_child sk) with
+        | None => (LPanic, h)
+        | Some c =>
+          if Nat.ltb (List.length (ps s)) (sk_pcnt sk) then (LPanic, h)
+          else
+          lbpI f path lazy PWalk
+            {| cur := c; par := Some (sk_n sk); cm := sk_path sk; cmn := cmn s; pcnt := sk_pcnt sk; pkc := pkc s;
+               sks := rest; ps := firstn (sk_pcnt sk) (ps s); tsr := tsr s; tn := tn s; tps := tps s |} h
+        end
+      | [] => (Found (tn s) (tsr s) (ps s) (tps s), h)
+      end
+  end end.
+
+Definition lookup_by_pathI (fuel : nat) (target : node) (path : bytes) (lazy : bool) (ps0 tps0 : list kv) (h : hw) : lres * hw :=
+  lbpI fuel path lazy PWalk (init_st target ps0 tps0) h.
+
+Fixpoint lbdI (fuel : nat) (host path : bytes) (lazy : bool) (ph : dphase) (s : st) (h : hw) {struct fuel} : lres * hw :=
+  match fuel with O => (LOutOfFuel, h) | S f =>
+  let h := bump lazy h s in
+  let n := List.length host in
+  let key := nkey (cur s) in
+  match ph with
+  | DWalk =>
+      if Nat.ltb (cm s) n
+      then lbdI f host path lazy (DInner 0)
+             {| cur := cur s; par := par s; cm := cm s; cmn := 0; pcnt := pcnt s; pkc := pkc s; sks := sks s;
+                ps := ps s; tsr := tsr s; tn := tn s; tps := tps s |} h
+      else lbdI f host path lazy DAfter s h
+  | DInner i =>
+      if negb (Nat.ltb (cm s) n) then lbdI f host path lazy DSelect s h
+      else if negb (Nat.ltb i (List.length key)) then lbdI f host path lazy DSelect s h
+      else
+      match nth_error key i, nth_error host (cm s) with
+      | Some k, Some p =>
+        if negb (Ascii.eqb k p) || Ascii.eqb p "{" then
+          if Ascii.eqb k "{" then
+            match index_byte (skipn (cm s) host) "." with
+            | Some O => lbdI f host path lazy DAfter s h
+            | idx =>
+              let cm' := match idx with Some d => cm s + d | None => n end in
+              match nth_error (nparams (cur s)) (pkc s) with
+              | None => (LPanic, h)
+              | Some prm =>
+                let rest := List.length key - cmn s in
+                let adv := match pend prm with
+                           | Some e => if Nat.leb (cmn s) e then e - cmn s else rest
+                           | None => rest end in
+                lbdI f host path lazy (DInner (i + adv))
+                  {| cur := cur s; par := par s; cm := cm'; cmn := cmn s + adv;
+                     pcnt := if lazy then pcnt s else S (pcnt s); pkc := S (pkc s); sks := sks s;
+                     ps := if lazy then ps s else ps s ++ [(pkey prm, slice host (cm s) cm')];
+                     tsr := tsr s; tn := tn s; tps := tps s |} h
+              end
+            end
+          else lbdI f host path lazy DAfter s h
+        else
+          lbdI f host path lazy (DInner (S i))
+            {| cur := cur s; par := par s; cm := S (cm s); cmn := S (cmn s); pcnt := pcnt s; pkc := pkc s;
+               sks := sks s; ps := ps s; tsr := tsr s; tn := tn s; tps := tps s |} h
+      | _, _ => (LPanic, h)
+      end
+  | DSelect =>
+      if Nat.ltb (cm s) n then
+        match nth_error host (cm s) with
+        | None => (LPanic, h)
+        | Some p =>
+          match find_child (cur s) p with
+          | None =>
+            match param_child_index (cur s) with
+            | Some pi =>
+              match nth_error (nchildren (cur s)) pi with
+              | Some c => lbdI f host path lazy DWalk (dgo s c) h
+              | None => (LPanic, h) end
+            | None => lbdI f host path lazy DAfter s h
+            end
+          | Some idx =>
+            let s1 := match param_child_index (cur s) with Some pi => dpush s (cur s) pi | None => s end in
+            match nth_error (nchildren (cur s)) idx with
+            | Some c => lbdI f host path lazy DWalk (dgo s1 c) h
+            | None => (LPanic, h) end
+          end
+        end
+      else lbdI f host path lazy DWalk s h
+  | DAfter =>
+      let s := {| cur := cur s; par := par s; cm := cm s; cmn := cmn s; pcnt := 0; pkc := 0; sks := sks s;
+                  ps := ps s; tsr := tsr s; tn := tn s; tps := tps s |} in
+      if Nat.eqb (cm s) n && Nat.eqb (cmn s) (List.length key) then
+        match find_child (cur s) "/" with
+        | None => lbdI f host path lazy DBack s h
+        | Some idx =>
+          match nth_error (nchildren (cur s)) idx with
+          | None => (LPanic, h)
+          | Some c =>
+            match lookup_by_pathI f c path lazy [] [] h with
+            | (Found None _ _ _, h1) => lbdI f host path lazy DBack s h1
+            | (Found (Some sn) true _ stps, h1) =>
+                lbdI f host path lazy DBack (if tsr s then s else set_tsr lazy s sn (ps s ++ stps)) h1
+            | (Found (Some sn) false sps _, h1) =>
+                let p' := if lazy then ps s else ps s ++ sps in
+                (Found (Some sn) false p' (tps s), hp h1 p')
+            | (LPanic, h1) => (LPanic, h1)
+            | (LOutOfFuel, h1) => (LOutOfFuel, h1)
+            end
+          end
+        end
+      else lbdI f host path lazy DBack s h
+  | DBack =>
+      match sks s with
+      | sk :: rest =>
+        match nth_error (nchildren (sk_n sk)) (sk_child sk) with
+        | None => (LPanic, h)
+        | Some c =>
+          if Nat.ltb (List.length (ps s)) (sk_pcnt sk) then (LPanic, h)
+          else
+          lbdI f host path lazy DWalk
+            {| cur := c; par := None; cm := sk_path sk; cmn := cmn s; pcnt := sk_pcnt sk; pkc := pkc s;
+               sks := rest; ps := firstn (sk_pcnt sk) (ps s); tsr := tsr s; tn := tn s; tps := tps s |} h
+        end
+      | [] => (Found (tn s) (tsr s) (ps s) (tps s), h)
+      end
+  end end.
+
+Definition lookup_by_domainI (fuel : nat) (target : node) (host path : bytes) (lazy : bool) (ps0 tps0 : list kv) (h : hw) : lres * hw :=
+  match host with
+  | [] => (LPanic, h)
+  | h0 :: _ =>
+    let s0 := init_st target ps0 tps0 in
+    match find_child target h0 with
+    | None =>
+      match param_child_index target with
+      | Some pi => match nth_error (nchildren target) pi with
+                   | Some c => lbdI fuel host path lazy DWalk (dgo s0 c) h
+                   | None => (LPanic, h) end
+      | None => (Found None false ps0 tps0, h)
+      end
+    | Some idx =>
+      let s1 := match param_child_index target with Some pi => dpush s0 target pi | None => s0 end in
+      match nth_error (nchildren target) idx with
+      | Some c => lbdI fuel host path lazy DWalk (dgo s1 c) h
+      | None => (LPanic, h) end
+    end
+  end.
+
+Definition roots_lookupI (fuel : nat) (r : roots) (method host path : bytes) (lazy : bool) (ps0 tps0 : list kv) (h : hw) : lres * hw :=
+  match method_index r method with
+  | None => (Found None false ps0 tps0, h)
+  | Some index =>
+    match nth_error r index with
+    | None => (LPanic, h)
+    | Some root =>
+      match nchildren root with
+      | [] => (Found None false ps0 tps0, h)
+      | c0 :: rest =>
+        if match rest with [] => starts_with "/" (nkey c0) | _ => false end
+        then lookup_by_pathI fuel c0 path lazy ps0 tps0 h
+        else
+          let fallback (tps1 : list kv) (h1 : hw) :=
+            match find_child root "/" with
+            | None => (Found None false [] tps1, h1)
+            | Some idx =>
+              match nth_error (nchildren root) idx with
+              | Some c => lookup_by_pathI fuel c path lazy [] tps1 h1
+              | None => (LPanic, h1) end
+            end in
+          match host with
+          | [] => match find_child root "/" with
+                  | None => (Found None false ps0 tps0, h)
+                  | Some _ => fallback tps0 h end
+          | _ =>
+            match lookup_by_domainI fuel root host path lazy ps0 tps0 h with
+            | (Found (Some n) t p tp, h1) => (Found (Some n) t p tp, h1)
+            | (Found None _ p tp, h1) =>
+                match find_child root "/" with
+                | None => (Found None false p tp, h1)
+                | Some _ => fallback tp h1 end
+            | (LPanic, h1) => (LPanic, h1)
+            | (LOutOfFuel, h1) => (LOutOfFuel, h1)
+            end
+          end
+      end
+    end
+  end.
+
+(* ---------- capacities ---------- *)
+(* capacities of every pooled context of a tree (allocateContext) *)
+Definition caps_of (maxparams depth : nat) : hw := {| h_ps := maxparams; h_tps := maxparams; h_sks := depth |}.
+Definition txn_caps (t : txn) : hw := caps_of (t_maxparams t) (t_depth t).
+
+(* the marks of serving one request with ServeHTTP (c.reset: params[:0]; tsrParams stale = tps0) *)
+Definition serve_marks (r : roots) (method host path : bytes) (tps0 : list kv) : hw :=
+  snd (roots_lookupI big_fuel r method host path false [] tps0 hw0).
+
+(* per buffer: does a run with marks h on capacities c contain a growth event *)
+Definition grow_ps (c h : hw) : bool := Nat.ltb (h_ps c) (h_ps h).
+Definition grow_tps (c h : hw) : bool := Nat.ltb (h_tps c) (h_tps h).
+Definition grow_sks (c h : hw) : bool := Nat.ltb (h_sks c) (h_sks h).
+Definition grows (c h : hw) : bool := grow_ps c h || grow_tps c h || grow_sks c h.
+
+(* ---------- static bounds computed from the tree ---------- *)
+Definition maxl (f : node -> nat) (l : list node) : nat := fold_right (fun c acc => Nat.max (f c) acc) 0 l.
+
+(* wdepth: most wildcards on a path from this node down *)
+Fixpoint wdepth (n : node) : nat :=
+  match n with Node k _ ch => List.length (parse_wildcard k) + fold_right (fun c acc => Nat.max (wdepth c) acc) 0 ch end.
+Definition maxc (n : node) : nat := maxl wdepth (nchildren n).
+Definition wroots (r : roots) : nat := maxl maxc r.
+
+(* sneed: most skipped-node entries that can be stacked on a descent from this node:
+   a node pushes one entry per alternative (wildcard child, param child) it has *)
+Definition alts (n : node) : nat :=
+  (match wildcard_child_index n with Some _ => 1 | None => 0 end) +
+  (match param_child_index n with Some _ => 1 | None => 0 end).
+Fixpoint sneed (n : node) : nat :=
+  match n with Node k r ch =>
+    alts (Node k r ch) + fold_right (fun c acc => Nat.max (sneed c) acc) 0 ch end.
+Definition sroots (r : roots) : nat := maxl sneed r.
+
+(* ---------- cases (harness c16) ---------- *)
+(* One case = one (tree, request) measured on the real router:
+   a_cold  : which buffers of some pooled context changed capacity while the request was served
+             for the first time on a freshly built router (params, tsrParams, skipNds);
+   a_warm  : did any capacity change during the measured (post warm-up) runs;
+   a_allocs: heap allocations per ServeHTTP call after warm-up (minimum over repetitions);
+   a_match : the request was served by a route handler (direct match or ignored trailing slash);
+   a_tsr   : it was an ignored-trailing-slash match. *)
+Record acase := { a_roots : roots; a_maxparams : nat; a_depth : nat;
+                  a_method : bytes; a_rawhost : bytes (* the Host header *);
+                  a_host : bytes (* netutil.StripHostPort(Host), as computed by the implementation *);
+                  a_path : bytes;
+                  a_match : bool; a_tsr : bool; a_pattern : bytes;
+                  a_cold : bool * bool * bool; a_warm : bool; a_allocs : N }.
+
+Definition a_caps (c : acase) : hw := caps_of (a_maxparams c) (a_depth c).
+Definition a_run (c : acase) : lres * hw :=
+  roots_lookupI big_fuel (a_roots c) (a_method c) (a_host c) (a_path c) false [] [] hw0.
+
+Definition model_outcome (r : lres) : option (bool * bool * bytes) :=   (* found-with-handler?, tsr, pattern *)
+  match r with
+  | Found None _ _ _ => Some (false, false, [])
+  | Found (Some n) t _ _ => match nroute n with Some rt => Some (true, t, rpat rt) | None => None end
+  | _ => None
+  end.
+
+(* implementation = model: same outcome, and the buffers that grew on the cold run are exactly
+   the ones the marks say must grow from the allocateContext capacities *)
+Definition a_agrees (c : acase) : bool :=
+  let '(r, h) := a_run c in
+  match model_outcome r with
+  | None => false
+  | Some (found, t, pat) =>
+      (if a_match c then found && Bool.eqb t (a_tsr c) && bytes_eqb pat (a_pattern c) else true) &&
+      let '(gp, gt, gs) := a_cold c in
+      Bool.eqb gp (grow_ps (a_caps c) h) && Bool.eqb gt (grow_tps (a_caps c) h) && Bool.eqb gs (grow_sks (a_caps c) h)
+  end.
+
+(* the property: a matching request, after warm-up, allocates nothing and grows nothing *)
+Definition a_spec_ok (c : acase) : bool :=
+  if a_match c then N.eqb (a_allocs c) 0 && negb (a_warm c) else true.
+
+(* the static bounds hold on the dumped tree and the marks respect them *)
+Definition a_bounds_ok (c : acase) : bool :=
+  let h := snd (a_run c) in
+  Nat.leb (wroots (a_roots c)) (a_maxparams c) &&
+  Nat.leb (h_ps h) (wroots (a_roots c)) && Nat.leb (h_tps h) (wroots (a_roots c)) &&
+  Nat.leb (h_sks h) (sroots (a_roots c)).
+
+Definition a_oof (c : acase) : bool := match fst (a_run c) with LOutOfFuel => true | _ => false end.
+
+Definition a_mismatches (cs : list acase) : list nat := true_idx (map (fun c => negb (a_agrees c && a_bounds_ok c)) cs).
+Definition a_violations (cs : list acase) : list nat := true_idx (map (fun c => negb (a_spec_ok c)) cs).
+Definition a_fuel_outs (cs : list acase) : list nat := true_idx (map a_oof cs).
+(* finding C16-hostport-error-alloc: a Host containing ':' that net.SplitHostPort rejects
+   (StripHostPort then returns it unchanged) costs the one *net.AddrError the rejection allocates *)
+Definition a_hostport_error (c : acase) : bool :=
+  existsb (Ascii.eqb ":") (a_rawhost c) && bytes_eqb (a_rawhost c) (a_host c).
+Definition a_known_hostport (cs : list acase) : list nat :=
+  true_idx (map (fun c => negb (a_spec_ok c) && a_hostport_error c && N.eqb (a_allocs c) 1 && negb (a_warm c)) cs).
+(* cases where the cold run had to grow the skipped-node stack: depth under-sizes it (docs/C16.md) *)
+Definition a_cold_growth (cs : list acase) : list nat :=
+  true_idx (map (fun c => grows (a_caps c) (snd (a_run c))) cs).
